@@ -73,8 +73,10 @@ static int include_next_idx;
 static Token *preprocess2(Token *tok);
 static Macro *find_macro(Token *tok);
 
+// A "#" that results from macro replacement is not a directive even if
+// it ends up at the beginning of a line (6.10.3.4p3).
 static bool is_hash(Token *tok) {
-  return tok->at_bol && equal(tok, "#");
+  return tok->at_bol && equal(tok, "#") && !tok->origin;
 }
 
 // Some preprocessor directives such as #include allow extraneous
